@@ -295,3 +295,20 @@ func PickSend[T any](g GateChoice, i int, ch chan<- T) chan<- T {
 	}
 	return ch
 }
+
+// OrderedKeys returns the keys of m sorted and then rotated by an offset the
+// scheduler chooses (no rotation if there is none). It is used to take
+// control of the iteration order of map range statements.
+func OrderedKeys[M ~map[K]V, K cmp.Ordered, V any](label string, m M) []K {
+	keys := make([]K, 0, len(m))
+	for k := range m {
+		keys = append(keys, k)
+	}
+	slices.Sort(keys)
+	s := sched()
+	if s == nil || len(keys) < 2 {
+		return keys
+	}
+	r := s.Choose(label, len(keys))
+	return append(keys[r:len(keys):len(keys)], keys[:r]...)
+}
